@@ -856,7 +856,7 @@ func runBatch(b batch, rep *ev.Reporter, st *stats, samples *[]sample) {
 		st.validated++
 		st.yielded[x.pos]++
 		st.outcomes[hashBytes(x.answers, uint64(x.pos))] = struct{}{}
-		if samples != nil && (n%997 == 5 || b.maxLen == 0) && len(*samples) < 3 {
+		if samples != nil && (n%997 == 611 || b.maxLen == 0) && len(*samples) < 2 {
 			*samples = append(*samples, sample{x.desc(), string(x.trace)})
 		}
 	}
@@ -956,10 +956,10 @@ type bounds struct {
 
 func plan(thorough bool) (bs []batch, bd bounds) {
 	bd = bounds{Pages: 3, Items: 2, LenPlain: 5, LenPlainF: 4, PagesS: 2, LenStream: 5, LenStreamF: 3, PagesS2: 3, LenStream2: 4, LenLong: 2,
-		Backoffs: []time.Duration{0, grace / 4}, PagesSBackoff: 3, LenSBkf: 3}
+		Backoffs: []time.Duration{0, grace / 4, grace / 2}, PagesSBackoff: 3, LenSBkf: 3}
 	if thorough {
 		bd = bounds{Pages: 4, Items: 2, LenPlain: 6, LenPlainF: 5, PagesS: 2, LenStream: 6, LenStreamF: 4, PagesS2: 4, LenStream2: 4, LenLong: 3, PagesS3: 3, LenStream3: 5,
-			Backoffs: []time.Duration{0, grace / 4, 3 * time.Millisecond}, PagesSBackoff: 4, LenSBkf: 4}
+			Backoffs: []time.Duration{0, grace / 4, grace / 2, 3 * time.Millisecond}, PagesSBackoff: 4, LenSBkf: 4}
 	}
 	const plainAlpha, streamAlpha = "HGSCX", "HGDwWSCX"
 	add := func(b batch) { b.id = len(bs); bs = append(bs, b) }
@@ -1137,9 +1137,15 @@ func TestC19(t *testing.T) {
 		rep.ViolationN(sig, v.first, v.n)
 	}
 	var samples []any
-	for _, s := range smp {
-		for _, x := range s {
-			if len(samples) < 12 {
+	perKindS := map[string]int{}
+	for pass := 0; pass < 2; pass++ { // first pass: executions that yielded something through GetNext in the script
+		for _, s := range smp {
+			for _, x := range s {
+				interesting := strings.Contains(x.Trace, "G=0") && strings.Contains(x.Case.Script, "G")
+				if (pass == 0) != interesting || perKindS[x.Case.Kind] >= 3 {
+					continue
+				}
+				perKindS[x.Case.Kind]++
 				samples = append(samples, x)
 			}
 		}
